@@ -209,6 +209,10 @@ def parts(tier):
         InputPart("numbers", lambda: c01.layer_numbers(NUM), check,
                   rule="every ordered pair of the %d NUM values as entry times / spans (minimumIntervalLength=None)" % len(NUM),
                   bounds={"numbers": len(NUM)}, snippet=c01._snippet, chunk=8),
+        InputPart("size", lambda: c01.layer_size(not quick), check,
+                  rule="the size axis (shared with C01): 9-25 (thorough 100) tiers; tiers of 10-400 (thorough 1000) entries; labels and names with 8-30 quote "
+                       "characters, 255-9000 characters, 10-40 lines, thousands of non-ASCII characters: the written text is well-formed in every "
+                       "character (texts longer than 8192 and 65536 characters), all formats agree", bounds={}, snippet=c01._snippet, chunk=1),
         InputPart("structure", lambda: c01.layer_structure(not quick), check,
                   rule="all small structures (0-3 entries, empty labels, tier spans narrower/wider than the file span, tier order)",
                   bounds={}, snippet=c01._snippet, chunk=8),
